@@ -177,7 +177,17 @@ func runSeq(c SeqCase) pbt.Verdict {
 	classes := map[string]bool{}
 	var fullLookupsWithFresh, cleanupsWithExpired, renewalProtected, removedSeen int
 
+	// The previous lookup's result is the caller's (the tracker sorts and serialises it): later
+	// store operations must not rewrite it.
+	var held []*core.PeerInfo
+	var heldVals []core.PeerInfo
+	heldAt := -1
 	for i, op := range c.Ops {
+		for k, g := range held {
+			if g == nil || *g != heldVals[k] {
+				return pbt.Fail("the result of an earlier lookup changed afterwards: entry %d of the list returned at step %d was %+v, is now %+v (before step %d)", k, heldAt, heldVals[k], g, i)
+			}
+		}
 		now := clk.Now()
 		switch op.K {
 		case 0:
@@ -196,6 +206,14 @@ func runSeq(c SeqCase) pbt.Verdict {
 				return pbt.Fail("GetPeers failed (step %d): %v", i, err)
 			}
 			where := fmt.Sprintf("step %d: GetPeers(t%d, %d) at +%s, ttl %s", i, op.T, op.N, now.Sub(time.Unix(1600000000, 0)), ttl)
+			held, heldVals, heldAt = got, nil, i
+			for _, g := range got {
+				if g != nil {
+					heldVals = append(heldVals, *g)
+				} else {
+					heldVals = append(heldVals, core.PeerInfo{})
+				}
+			}
 			if len(got) > op.N {
 				return pbt.Fail("GetPeers returned %d peers, more than the %d asked for (%s)", len(got), op.N, where)
 			}
